@@ -210,6 +210,11 @@ def trips(td, scratch, rng):
     out["to_dict+from_dict"] = (lambda: TensorDict.from_dict(td.to_dict(), batch_size=td.batch_size, device=td.device,
                                                               names=list(td.names) if td._has_names() else None), dict(lock=False, names=True, device=True))
 
+    # from_dict inferring the batch size: the first `batch_dims` dims the entries have in common
+    out["to_dict+from_dict(auto_batch_size, batch_dims)"] = (
+        lambda: TensorDict.from_dict(td.to_dict(), auto_batch_size=True, batch_dims=td.batch_dims, device=td.device,
+                                     names=list(td.names) if td._has_names() else None), dict(lock=False, names=True, device=True))
+
     def pt():
         leaves, spec = pytree.tree_flatten(td)
         return pytree.tree_unflatten(leaves, spec)
@@ -227,6 +232,8 @@ def applicable(name, kind, td):
         return kind == "flat1d"
     if kind == "njt2":
         kind = "njt"
+    if name.startswith("to_dict+from_dict(auto") and kind in ("nontensor-num", "nested-batch"):
+        return False    # the plain dict cannot carry them (known findings of the explicit-batch-size trip)
     if kind == "lazy-nested" and name.startswith("consolidate(file"):
         # a custom tensorclass *inside* the structure has no json form: consolidate(filename=...) says so itself ("Failed to convert
         # the metadata to json … such as custom TensorClass"); in memory / pickle / deepcopy it is carried
@@ -242,9 +249,9 @@ def applicable(name, kind, td):
     if kind == "njt" and name not in ("pickle", "deepcopy", "consolidate(num_threads=0)", "consolidate(num_threads=1)", "consolidate(num_threads=4)",
                                       "pickle(consolidated)", "consolidate(file)+from_consolidated", "consolidate(inplace)", "pickle(consolidated inplace)"):
         return False
-    if kind == "lazy" and (name in ("struct_array", "to_dict+from_dict") or name.startswith("state_dict")):
+    if kind == "lazy" and (name in ("struct_array",) or name.startswith(("state_dict", "to_dict+from_dict"))):
         return False
-    if kind == "tensorclass" and (name in ("to_dict+from_dict", "struct_array") or name.startswith("state_dict")):
+    if kind == "tensorclass" and (name in ("struct_array",) or name.startswith(("state_dict", "to_dict+from_dict"))):
         return False
     return True
 
